@@ -826,12 +826,18 @@ fn gen_bones(rng: &mut Rng, pool: &mut Vec<Vec<u8>>, big: bool) -> Vec<BoneG> {
 fn header_fields(rng: &mut Rng) -> String {
     let ver = *rng.pick(&[0x3132_3030u32, 0x3133_3030, 0x3133_3031]);
     let hdr: Vec<u32> = (0..6).map(|_| rng.u32_edge()).collect();
-    let gap_len = match rng.below(6) {
+    let gap_kinds = if rng.chance(1, 25) { 7 } else { 6 };
+    let gap_len = match rng.below(gap_kinds) {
         0 => 0,
         1 => 1,
         2 => rng.range(100, 3000),
+        // the Havok data starts at or beyond 64 KiB (the offset is a 32-bit field in the newer
+        // container, a 16-bit one in the old)
+        6 => *rng.pick(&[65400u64, 65536, 65537, 70000, 131072]),
         _ => rng.range(0, 64),
     } as usize;
+    // the old container stores the offset in 16 bits: its largest legal gap is 65507
+    let gap_len = if ver == 0x3132_3030 && gap_len + 28 >= 65536 { 65507 } else { gap_len };
     let reuse = match rng.below(4) {
         0 => 0,
         1 => 0xFFFF,
